@@ -111,6 +111,11 @@ def _pool():
         # the same long texts at the same column positions in columns of different width (page fill differs)
         "narrow": lambda sh: rtf.RTFDocument(df=DFW(), rtf_page=rtf.RTFPage(nrow=8), rtf_body=rtf.RTFBody(col_rel_width=[1, 3])),
         "wide": lambda sh: rtf.RTFDocument(df=DFW(), rtf_page=rtf.RTFPage(nrow=8), rtf_body=rtf.RTFBody(col_rel_width=[3, 1])),
+        # two page_by documents with different data (not in POOL_NAMES: used by the thread scheduler only)
+        "pbA": lambda sh: rtf.RTFDocument(df=__import__("polars").DataFrame({"g": ["G0v0", "G0v0", "G0v1"], "a": ["D0.1", "D1.1", "D2.1"]}),
+                                          rtf_page=rtf.RTFPage(nrow=5), rtf_body=rtf.RTFBody(page_by=["g"], text_color="red")),
+        "pbB": lambda sh: rtf.RTFDocument(df=__import__("polars").DataFrame({"g": ["G0v7", "G0v8", "G0v8", "G0v9"], "a": ["D0.1", "D1.1", "D2.1", "D3.1"]}),
+                                          rtf_page=rtf.RTFPage(nrow=4), rtf_body=rtf.RTFBody(page_by=["g"])),
         "figure": lambda sh: rtf.RTFDocument(rtf_figure=rtf.RTFFigure(figures=[_png_path()], fig_width=2, fig_height=1.5),
                                              rtf_title=rtf.RTFTitle(text="T0", text_color="orange")),
         # shA / shB hold the same component objects AND the same DataFrame; same column count
